@@ -476,7 +476,8 @@ def run(rn, mod, hs, args, t_start):
                 except OSError:
                     pass
         return 2
-    log(f"[{pid}] OK: {len(hs)} queries discharged, 0 violations, wall {wall:.0f}s")
+    npass = sum(1 for r in results.values() if r["verdict"] == "pass")
+    log(f"[{pid}] OK: {npass} of {len(hs)} queries discharged, {len(findings_hit)} hit listed known findings, 0 new violations, wall {wall:.0f}s")
     return 0
 
 
